@@ -220,43 +220,234 @@ def _strict_less(tree):
     return found[0]
 
 
-def _sample_under_lock(init):
-    """When `nowrap` is true, do both front ends call the platform function AND `_wrap_numbers` inside one
-    `with <L>:` where `L` is one module-level `threading.Lock()` (and nowhere else)? False when no `_wrap_numbers`
-    call sits in such a block (the front ends before fixes/C10-sample-under-lock)."""
-    locks = {extract.dotted(st.targets[0]) for st in init.body
-             if isinstance(st, ast.Assign) and len(st.targets) == 1 and extract.dotted(st.value) == "threading.Lock()"}
-    verdicts, used = [], set()
-    for fname in ("disk_io_counters", "net_io_counters"):
-        fn = extract.find_def(init, fname)
-        wraps = extract.calls_in(fn, "_wrap_numbers")
-        if not wraps:
-            raise NotRecognised("%s does not call _wrap_numbers" % fname)
-        inside = []
-        for iff in ast.walk(fn):
-            if not (isinstance(iff, ast.If) and extract.dotted(iff.test) == "nowrap"):
+def _module_locks(init):
+    return {extract.dotted(st.targets[0]) for st in init.body
+            if isinstance(st, ast.Assign) and len(st.targets) == 1 and extract.dotted(st.value) == "threading.Lock()"}
+
+
+def _sample_under_lock_fn(init, fname):
+    """TOTAL (never raises for a function that exists): (verdict, lock names used). verdict = every `_wrap_numbers`
+    call of front end `fname` sits in the body of a `with <L>:` (L a module-level `threading.Lock()`) under
+    `if nowrap:`, its first argument is a variable assigned in the SAME `with` body, before it, from the one call
+    of `_psplatform.<fname>` in that body. Hoisting the platform call out of the block, a second `_wrap_numbers`
+    call outside it, another lock object, a lock that is not module-level -> False."""
+    locks = _module_locks(init)
+    fn = extract.find_def(init, fname)
+    wraps = extract.calls_in(fn, "_wrap_numbers") + [c for c in extract.calls_in(fn, "wrap_numbers")]
+    if not wraps:
+        return False, []
+    ok_calls, used = [], []
+    for iff in ast.walk(fn):
+        if not (isinstance(iff, ast.If) and extract.dotted(iff.test) == "nowrap"):
+            continue
+        for w in iff.body:
+            if not (isinstance(w, ast.With) and len(w.items) == 1
+                    and extract.dotted(w.items[0].context_expr) in locks):
                 continue
-            for w in iff.body:
-                if isinstance(w, ast.With) and len(w.items) == 1 and extract.dotted(w.items[0].context_expr) in locks:
-                    plat = [c for c in ast.walk(w) if isinstance(c, ast.Call)
-                            and extract.dotted(c.func) == "_psplatform." + fname]
-                    ws = [c for c in ast.walk(w) if isinstance(c, ast.Call) and c in wraps]
-                    if len(plat) == 1 and ws:
-                        inside += ws
-                        used.add(extract.dotted(w.items[0].context_expr))
-        if not inside:
-            verdicts.append(False)
-        elif len(inside) == len(wraps):
-            verdicts.append(True)
+            sampled = {}          # variable -> position of its assignment from the platform call
+            nplat = len([c for c in ast.walk(w) if isinstance(c, ast.Call)
+                         and extract.dotted(c.func) == "_psplatform." + fname])
+            for pos, st in enumerate(w.body):
+                if isinstance(st, ast.Assign) and len(st.targets) == 1 and isinstance(st.targets[0], ast.Name) \
+                        and isinstance(st.value, ast.Call) and extract.dotted(st.value.func) == "_psplatform." + fname:
+                    sampled[st.targets[0].id] = pos
+                for c in ast.walk(st):
+                    if isinstance(c, ast.Call) and any(c is x for x in wraps):
+                        a0 = c.args[0] if c.args else None
+                        if nplat == 1 and isinstance(a0, ast.Name) and a0.id in sampled and sampled[a0.id] < pos:
+                            ok_calls.append(c)
+                            used.append(extract.dotted(w.items[0].context_expr))
+    return len(ok_calls) == len(wraps), sorted(set(used))
+
+
+# ------------------------------------------------------------------------------ closed world, whole bodies
+
+WRAP_IDS = ("wrap_numbers", "_wrap_numbers")
+
+
+def _py_files(snap):
+    import os
+    out = []
+    for root, dirs, files in os.walk(snap.pkg):
+        dirs.sort()
+        for f in sorted(files):
+            if f.endswith(".py"):
+                out.append(os.path.relpath(os.path.join(root, f), snap.pkg))
+    return out
+
+
+def _enclosing(tree):
+    """node -> name of the outermost function/class it sits in ('<module>' at top level), parent map"""
+    owner, parent = {}, {}
+    for top in tree.body:
+        nm = top.name if isinstance(top, (ast.FunctionDef, ast.AsyncFunctionDef, ast.ClassDef)) else "<module>"
+        for n in ast.walk(top):
+            owner[n] = nm
+            for ch in ast.iter_child_nodes(n):
+                parent[ch] = n
+    return owner, parent
+
+
+def _world(snap, names):
+    """Every reference in psutil/**/*.py to wrap_numbers / _wn / _nowrap_lock / one of the cache-name strings, as
+    sorted `file:function:kind` strings (TOTAL: unknown uses get the kind `ref`)."""
+    wrap, wn, lock, nm = [], [], [], []
+    for rel in _py_files(snap):
+        tree = extract.parse_module(snap, rel)
+        owner, parent = _enclosing(tree)
+        for n in ast.walk(tree):
+            where = "%s:%s" % (rel, owner.get(n, "<module>"))
+            par = parent.get(n)
+            ident = n.id if isinstance(n, ast.Name) else n.attr if isinstance(n, ast.Attribute) else None
+
+            def kind():
+                if isinstance(par, ast.Call) and par.func is n:
+                    return "call"
+                if isinstance(par, ast.Attribute) and par.value is n:
+                    gp = parent.get(par)
+                    k = par.attr + ("()" if isinstance(gp, ast.Call) and gp.func is par else "")
+                    if isinstance(par.ctx, ast.Store):
+                        k += "="
+                    return k
+                if isinstance(par, ast.withitem):
+                    return "with"
+                if isinstance(par, ast.Assign) and n in par.targets:
+                    return "=" + extract.dotted(par.value)
+                return "ref"
+            if ident in WRAP_IDS:
+                wrap.append("%s:%s" % (where, kind()))
+            elif ident == "_wn":
+                wn.append("%s:%s" % (where, kind()))
+            elif ident == "_nowrap_lock":
+                lock.append("%s:%s" % (where, kind()))
+            elif isinstance(n, ast.ImportFrom) and any(a.name in WRAP_IDS for a in n.names):
+                wrap.append("%s:import" % where)
+            elif isinstance(n, ast.FunctionDef) and n.name in WRAP_IDS:
+                wrap.append("%s:def" % ("%s:%s" % (rel, "<module>" if n in tree.body else owner.get(n))))
+            elif isinstance(n, ast.Constant) and isinstance(n.value, str) and n.value in names:
+                nm.append("%s:%s" % (where, n.value))
+    return sorted(wrap), sorted(wn), sorted(lock), sorted(nm)
+
+
+def _cache_names(init):
+    """the string literals handed to _wrap_numbers / its cache_clear anywhere in psutil/__init__.py (TOTAL)"""
+    out = set()
+    for c in ast.walk(init):
+        if isinstance(c, ast.Call) and extract.dotted(c.func).split(".")[-1] in WRAP_IDS + ("cache_clear", "partial"):
+            if extract.dotted(c.func).split(".")[-1] == "cache_clear" and "wrap_numbers" not in extract.dotted(c.func):
+                continue
+            if extract.dotted(c.func).split(".")[-1] == "partial" and not (
+                    c.args and "wrap_numbers" in extract.dotted(c.args[0])):
+                continue
+            for a in ast.walk(c):
+                if isinstance(a, ast.Constant) and isinstance(a.value, str):
+                    out.add(a.value)
+    return out
+
+
+def _body_digest(common, meth):
+    """sha256[:16] of the AST of `_WrapNumbers.<meth>` without docstrings (comments and layout do not count)"""
+    import copy
+    import hashlib
+    fn = copy.deepcopy(extract.find_def(common, meth, cls="_WrapNumbers"))
+    for n in ast.walk(fn):
+        if hasattr(n, "body") and isinstance(n.body, list) and n.body and isinstance(n.body[0], ast.Expr) \
+                and isinstance(n.body[0].value, ast.Constant) and isinstance(n.body[0].value.value, str):
+            n.body = n.body[1:] or [ast.Pass()]
+    return hashlib.sha256(ast.dump(fn, annotate_fields=True, include_attributes=False).encode()).hexdigest()[:16]
+
+
+# ------------------------------------------------------------------------------ /proc/diskstats branch table
+
+YIELD_ORDER = ["reads", "writes", "rbytes", "wbytes", "rtime", "wtime", "reads_merged", "writes_merged", "busy_time"]
+
+
+def _guard(test):
+    """`flen == 14 or flen >= 18` -> [(False, 14), (True, 18)]"""
+    parts = test.values if isinstance(test, ast.BoolOp) and isinstance(test.op, ast.Or) else [test]
+    out = []
+    for p in parts:
+        if isinstance(p, ast.Compare) and len(p.ops) == 1 and extract.dotted(p.left) == "flen" \
+                and isinstance(p.ops[0], (ast.Eq, ast.GtE)):
+            out.append((isinstance(p.ops[0], ast.GtE), int(extract.const(p.comparators[0]))))
         else:
-            raise NotRecognised("%s: some _wrap_numbers calls are under the sampling lock, some are not" % fname)
-    if all(verdicts):
-        if len(used) != 1:
-            raise NotRecognised("the two front ends sample under two different locks: %s" % sorted(used))
-        return True
-    if not any(verdicts):
-        return False
-    raise NotRecognised("only one of the two front ends samples under the lock")
+            raise NotRecognised("guard of a diskstats branch: %s" % extract.unparse(test))
+    return out
+
+
+def _slice_start(sub):
+    if isinstance(sub, ast.Subscript) and extract.dotted(sub.value) == "fields" and isinstance(sub.slice, ast.Slice):
+        lo = 0 if sub.slice.lower is None else int(extract.const(sub.slice.lower))
+        hi = None if sub.slice.upper is None else int(extract.const(sub.slice.upper))
+        return lo, hi
+    raise NotRecognised("not a slice of fields: %s" % extract.unparse(sub))
+
+
+def _diskstats_layouts(pslinux):
+    """The if/elif chain of read_procfs(): per branch (guard, index of the name, index of each yielded counter)."""
+    outer = extract.find_def(pslinux, "disk_io_counters")
+    rp = [n for n in ast.walk(outer) if isinstance(n, ast.FunctionDef) and n.name == "read_procfs"]
+    if len(rp) != 1:
+        raise NotRecognised("read_procfs not found once")
+    loops = [n for n in ast.walk(rp[0]) if isinstance(n, ast.For)]
+    if len(loops) != 1:
+        raise NotRecognised("read_procfs: one for loop expected")
+    chain = [st for st in loops[0].body if isinstance(st, ast.If)]
+    ylds = [n for n in ast.walk(loops[0]) if isinstance(n, ast.Yield)]
+    if len(chain) != 1 or len(ylds) != 1 or not isinstance(ylds[0].value, ast.Tuple):
+        raise NotRecognised("read_procfs: one if/elif chain and one yield of a tuple expected")
+    order = [extract.dotted(e) for e in ylds[0].value.elts]
+    if order != ["name"] + YIELD_ORDER:
+        raise NotRecognised("read_procfs yields %s" % order)
+    table, node = [], chain[0]
+    while True:
+        env = {}
+        for st in node.body:
+            if not isinstance(st, ast.Assign):
+                raise NotRecognised("statement in a diskstats branch: %s" % extract.unparse(st))
+            v = st.value
+            for tgt in st.targets:
+                if isinstance(tgt, ast.Name):
+                    if isinstance(v, ast.Subscript) and extract.dotted(v.value) == "fields" and not isinstance(v.slice, ast.Slice):
+                        env[tgt.id] = int(extract.const(v.slice))
+                    elif isinstance(v, ast.Call) and extract.dotted(v.func) == "int" and len(v.args) == 1 \
+                            and isinstance(v.args[0], ast.Subscript) and extract.dotted(v.args[0].value) == "fields":
+                        env[tgt.id] = int(extract.const(v.args[0].slice))
+                    elif isinstance(v, ast.Constant) and v.value == 0:
+                        env[tgt.id] = None
+                    else:
+                        raise NotRecognised("assignment in a diskstats branch: %s" % extract.unparse(st))
+                elif isinstance(tgt, ast.Tuple) and isinstance(v, ast.Call) and extract.dotted(v.func) == "map" \
+                        and len(v.args) == 2 and extract.dotted(v.args[0]) == "int":
+                    lo, hi = _slice_start(v.args[1])
+                    guard = _guard(node.test)
+                    # the unpacking only works when the slice has as many items as targets
+                    exact = [n for ge, n in guard if not ge]
+                    if hi is None and not (len(exact) == len(guard) and all(n - lo == len(tgt.elts) for n in exact)):
+                        raise NotRecognised("open slice unpacked into %d names" % len(tgt.elts))
+                    if hi is not None and hi - lo != len(tgt.elts):
+                        raise NotRecognised("slice of %d fields unpacked into %d names" % (hi - lo, len(tgt.elts)))
+                    for off, e in enumerate(tgt.elts):
+                        if extract.dotted(e) != "_":
+                            env[extract.dotted(e)] = lo + off
+                else:
+                    raise NotRecognised("assignment in a diskstats branch: %s" % extract.unparse(st))
+        if "name" not in env or any(k not in env for k in YIELD_ORDER):
+            raise NotRecognised("a diskstats branch does not set every yielded variable")
+        table.append((_guard(node.test), env["name"], [env[k] for k in YIELD_ORDER]))
+        if len(node.orelse) == 1 and isinstance(node.orelse[0], ast.If):
+            node = node.orelse[0]
+            continue
+        if not (node.orelse and all(isinstance(x, (ast.Assign, ast.Raise)) for x in node.orelse)
+                and any(isinstance(x, ast.Raise) for x in node.orelse)):
+            raise NotRecognised("the diskstats chain does not end in `else: raise`")
+        return table
+
+
+def _lean_layouts(tbl):
+    return extract.lean_list(tbl, lambda e: "(%s, %d, %s)" % (
+        extract.lean_list(e[0], lambda g: "(%s, %d)" % (extract.lean_bool(g[0]), g[1])), e[1],
+        extract.lean_list(e[2], lambda c: extract.lean_opt(c, extract.lean_nat))))
 
 
 def _rk_accumulates(tree):
@@ -330,10 +521,38 @@ def facts(snap, F):
               "the only call of _WrapNumbers.run is `_wn.run(...)` inside `with _wn.lock:` in wrap_numbers (one instance, one threading.Lock)")
     F.try_add("clearUnderLock", "Bool", lambda: extract.lean_bool(locks()[1]),
               "the bodies of _WrapNumbers.cache_clear and cache_info are a single `with self.lock:` block")
-    F.try_add("sampleUnderLock", "Bool", lambda: extract.lean_bool(_sample_under_lock(init)),
-              "when nowrap is true both front ends call the platform function and _wrap_numbers inside one `with <module-level threading.Lock()>:` (fixes/C10-sample-under-lock)")
+    def sul(fname):
+        if ("sul", fname) not in d:
+            d[("sul", fname)] = _sample_under_lock_fn(init, fname)
+        return d[("sul", fname)]
+    F.try_add("sampleUnderLockDisk", "Bool", lambda: extract.lean_bool(sul("disk_io_counters")[0]),
+              "disk_io_counters: when nowrap, every _wrap_numbers call sits in one `with <module-level threading.Lock()>:` together with the platform call whose result it is given")
+    F.try_add("sampleUnderLockNet", "Bool", lambda: extract.lean_bool(sul("net_io_counters")[0]),
+              "net_io_counters: the same")
+    F.try_add("samplingLocks", "List String",
+              lambda: extract.lean_list(sul("disk_io_counters")[1] + sul("net_io_counters")[1], extract.lean_str),
+              "the lock objects the two front ends sample under (one shared lock = one sampling order over both functions)")
     F.try_add("rkAccumulates", "Bool", lambda: extract.lean_bool(_rk_accumulates(common)),
               "the only statement of run() touching reminder_keys is `self.reminder_keys[name][key].add(remkey)` next to `self.reminders[name][remkey] += old_value`, remkey = (key, i)")
+
+    def world():
+        if "world" not in d:
+            d["world"] = _world(snap, _cache_names(init))
+        return d["world"]
+    strs = lambda l: extract.lean_list(l, extract.lean_str)
+    F.try_add("wrapNumbersRefs", "List String", lambda: strs(world()[0]),
+              "every reference to wrap_numbers/_wrap_numbers in psutil/**/*.py (file:function:kind)")
+    F.try_add("wnRefs", "List String", lambda: strs(world()[1]), "every reference to the instance _wn")
+    F.try_add("nowrapLockRefs", "List String", lambda: strs(world()[2]), "every reference to _nowrap_lock")
+    F.try_add("cacheNameRefs", "List String", lambda: strs(world()[3]),
+              "every string constant equal to one of the cache names (file:function:name)")
+    for fact, meth in (("astRun", "run"), ("astRemoveDead", "_remove_dead_reminders"), ("astAddDict", "_add_dict"),
+                       ("astCacheClear", "cache_clear")):
+        F.try_add(fact, "String", lambda meth=meth: extract.lean_str(_body_digest(common, meth)),
+                  "digest of the docstring-free AST of _WrapNumbers.%s (any edit of the body changes it)" % meth)
+    F.try_add("diskstatsLayouts", "List (List (Bool × Nat) × Nat × List (Option Nat))",
+              lambda: _lean_layouts(_diskstats_layouts(extract.parse_module(snap, "_pslinux.py"))),
+              "read_procfs(): per branch of the if/elif chain on the number of fields of a /proc/diskstats line — guard (flen == n: (false, n); flen >= n: (true, n)), index of the name, index of reads, writes, rbytes, wbytes, rtime, wtime, reads_merged, writes_merged, busy_time (none = 0)")
 
 
 # ------------------------------------------------------------------------------ implementation side
